@@ -1,9 +1,20 @@
+/// Split a Breezy URL into the git URL, the branch name and the git ref it
+/// designates.
+///
+/// This is the inverse of `breezy.git.urls.git_url_to_bzr_url`, which stores
+/// the branch name %-escaped in the `branch` segment parameter and other refs
+/// %-quoted in the `ref` segment parameter.
 pub fn bzr_url_to_git_url(
     location: &str,
-) -> Result<(String, Option<String>, Option<String>), dromedary::urlutils::Error> {
+) -> Result<(String, Option<String>, Option<Vec<u8>>), dromedary::urlutils::Error> {
     let (target_url, target_params) = dromedary::urlutils::split_segment_parameters(location)?;
-    let branch = target_params.get("branch").map(|s| s.to_string());
-    let ref_ = target_params.get("revno").map(|s| s.to_string());
+    let branch = target_params
+        .get("branch")
+        .map(|s| dromedary::urlutils::unescape(s))
+        .transpose()?;
+    let ref_ = target_params
+        .get("ref")
+        .map(|s| percent_encoding::percent_decode_str(s).collect::<Vec<u8>>());
     Ok((target_url.to_string(), branch, ref_))
 }
 
